@@ -28,6 +28,10 @@ BAD = -98
 def lay(a, layout):
     if layout == "F":
         return np.asfortranarray(a)
+    if layout == "T":                        # transposed view of a C array
+        return np.ascontiguousarray(a.T).T
+    if layout == "rev":                      # rows reversed: negative stride
+        return np.ascontiguousarray(a[::-1])[::-1]
     if layout == "view":
         big = np.zeros((a.shape[0] * 2 + 1, a.shape[1] * 3 + 2), dtype=a.dtype)
         v = big[1::2, 2::3][:a.shape[0], :a.shape[1]]
